@@ -167,6 +167,16 @@ func runStart(c StartCase) (map[string]int, error) {
 	if c.Spawners > 1 && incs > 1 && !c.Panic && len(c.Stops) == 0 {
 		return nil, fmt.Errorf("%d goroutines spawned s/1 at the same time and the Producer ran %d times: more than one receiver answers to one id, their Receive calls are not ordered with each other; log: %v", c.Spawners, incs, log)
 	}
+	// ---- racing spawns, many rounds: 4 goroutines spawn one fresh id at the same moment; exactly one
+	// Producer runs (two receivers under one PID would have their Receive calls unordered)
+	if c.Spawners > 1 {
+		mu.Unlock()
+		err := spawnRaces(e, c.Spawners, 25)
+		mu.Lock()
+		if err != nil {
+			return nil, err
+		}
+	}
 	if len(c.Stops) > 0 {
 		feat["stop-request-while-the-actor-is-starting"]++
 	}
@@ -177,6 +187,30 @@ func runStart(c StartCase) (map[string]int, error) {
 		feat["racing-spawns-of-one-id"]++
 	}
 	return feat, nil
+}
+
+func spawnRaces(e *actor.Engine, spawners, rounds int) error {
+	for r := 0; r < rounds; r++ {
+		var ran atomic.Int32
+		var wg sync.WaitGroup
+		start := make(chan struct{})
+		id := fmt.Sprint(r)
+		for g := 0; g < spawners; g++ {
+			wg.Add(1)
+			go func() {
+				defer wg.Done()
+				<-start
+				e.Spawn(func() actor.Receiver { ran.Add(1); return recvFn(func(*actor.Context) {}) }, "race", actor.WithID(id))
+			}()
+		}
+		close(start)
+		wg.Wait()
+		if n := ran.Load(); n != 1 {
+			return fmt.Errorf("round %d: %d goroutines spawned race/%s at the same moment and the Producer ran %d times: %d receivers answer to one PID, their Receive calls are not ordered with each other", r, spawners, id, n, n)
+		}
+		e.Poison(actor.NewPID(e.Address(), "race/"+id))
+	}
+	return nil
 }
 
 type recvFn func(*actor.Context)
